@@ -994,8 +994,13 @@ Lemma cli_prepass_pools : forall kvs k l,
   exists kvs', cli_prepass (VMap kvs) = VMap kvs' /\ find_exact s_pools kvs' = Some (k, VList (map prepass_pool l)).
 Proof.
   intros kvs k l H. unfold cli_prepass. eexists. split; [reflexivity|].
-  induction kvs as [|[k1 x1] r IH]; cbn in *; [discriminate|].
+  induction kvs as [|[k1 x1] r IH]; [discriminate|].
+  cbn [find_exact] in H. cbn [map fst snd].
   destruct (str_eqb s_pools k1) eqn:E.
-  - inversion H; subst. rewrite str_eqb_sym in E. rewrite E. cbn. rewrite str_eqb_sym, E. reflexivity.
-  - rewrite str_eqb_sym in E. rewrite E. cbn. rewrite str_eqb_sym, E. apply IH. exact H.
+  - inversion H; subst. rewrite (str_eqb_sym k s_pools), E. cbn [find_exact fst snd]. rewrite E. reflexivity.
+  - rewrite (str_eqb_sym k1 s_pools), E. cbn [find_exact]. rewrite E. apply IH. exact H.
 Qed.
+
+Lemma dv_notok : forall env prop orc orcq reg lz F s c v,
+  notok (decode env prop orc orcq reg lz F s c v) -> notok (decode_and_validate env prop orc orcq reg lz F s c v).
+Proof. intros. unfold decode_and_validate. destruct (decode env prop orc orcq reg lz F s c v); cbn in *; tauto. Qed.
